@@ -176,8 +176,8 @@ Proof. cbv zeta. split; [repeat constructor; cbn; lia|vm_compute; split; reflexi
 
 (* the merge limit of the model is the limit newCursor passes to GetJournals now (coq/gen/Consts.v is regenerated
    from /repo on every run) *)
-Example C04_constants : merge_limit = go_cursorMaxSources.
-Proof. reflexivity. Qed.
+Example C04_constants : merge_limit = go_cursorMaxSources /\ MinTimestamp = go_MinTimestamp /\ MaxTimestamp = go_MaxTimestamp.
+Proof. repeat split; reflexivity. Qed.
 
 (* non-vacuity of C04_release_rereads: three sources (a nested mixer over the first two) read to the end: every mixer has
    reported EOF; a record appended to a source under the NESTED mixer is returned by the first Get after Release *)
